@@ -345,6 +345,12 @@ class Maker:
       return tuple(self(e) for e in d['tuple'])
     if 'dict' in d:
       return {k: self(v) for k, v in d['dict']}
+    if 'box' in d:
+      return stubmod.TempBox([self(e) for e in d['box']])
+    if 'nt' in d:
+      return stubmod.NT(*[self(e) for e in d['nt']])
+    if 'hostile' in d:
+      return stubmod.Hostile()
     if 'node' in d:
       nd = d['node']
       args = [self(a) for a in nd.get('args', [])]
@@ -361,3 +367,46 @@ class Maker:
       self.nodes.append(node)
       return node
     raise ValueError(f'bad descriptor {d!r}')
+
+
+class Unformable(Exception):
+  pass
+
+
+def model_build(v, memo, flags=None):
+  """The C01/C02 sentence, executed: direct calls, children first, exactly one
+  call per node instance and one built container per container instance."""
+  import functools
+  if flags is None:
+    flags = {}
+  k = id(v)
+  if k in memo:
+    return memo[k][1]
+  if isinstance(v, MNode):
+    args, kwargs, gap, unformable = v.call_args()
+    if gap:
+      flags['gap_default'] = True
+    if unformable:
+      raise Unformable()
+    args = [model_build(a, memo, flags) for a in args]
+    kwargs = {n: model_build(a, memo, flags) for n, a in kwargs.items()}
+    if v.btype == 'Config':
+      out = v.fn(*args, **kwargs)
+    elif v.btype == 'Partial':
+      out = functools.partial(v.fn, *args, **kwargs)
+    else:
+      raise NotImplementedError(v.btype)
+  elif isinstance(v, list):
+    out = [model_build(e, memo, flags) for e in v]
+  elif isinstance(v, tuple) and hasattr(v, '_fields'):
+    out = type(v)(*[model_build(e, memo, flags) for e in v])
+  elif isinstance(v, tuple):
+    out = tuple(model_build(e, memo, flags) for e in v)
+  elif isinstance(v, dict):
+    out = {kk: model_build(e, memo, flags) for kk, e in v.items()}
+  elif isinstance(v, stubmod.TempBox):
+    out = stubmod.TempBox([model_build(e, memo, flags) for e in v.children])
+  else:
+    return v
+  memo[k] = (v, out)
+  return out
